@@ -152,6 +152,9 @@ func (c *Ctx) Fail(f Finding) {
 		}
 	}
 	c.failCount++
+	if os.Getenv("VERIF_DEBUG_FAILS") != "" { // development aid: every failing input, not only the reported ones
+		fmt.Fprintln(os.Stderr, "FAIL", f.Sig, f.Input)
+	}
 	same := 0
 	for _, g := range c.findings {
 		if g.Sig == f.Sig {
